@@ -571,8 +571,19 @@ func checkC16(env *engine.Env, ci any) engine.Outcome {
 			val = map[string]any{"Key": c.Value}
 		}
 		doc := docWith(c16Base(), c.Path, val)
-		if c.Path[len(c.Path)-1] == "dst" || (len(c.Path) >= 2 && c.Path[len(c.Path)-2] == "[]" && c.Path[0] == "contents") {
-			// contents entries are the subject of the contents-expand part
+		if len(c.Path) > 0 && c.Path[0] == "overrides" {
+			// the other formats have override blocks too: one without any setting, one with a setting of its own
+			if ov, ok := doc["overrides"].(map[string]any); ok {
+				for i, o := range Formats {
+					if _, has := ov[o]; !has {
+						if i%2 == 0 {
+							ov[o] = nil
+						} else {
+							ov[o] = map[string]any{"umask": 0o027}
+						}
+					}
+				}
+			}
 		}
 		text := fixture.Doc(doc).YAML()
 		cfg, err := parseYAML(text, mappingOf(c))
